@@ -14,8 +14,11 @@ pub mod c10;
 pub mod c11;
 pub mod c13;
 pub mod c14;
+pub mod c15;
 pub mod c16;
 pub mod c17;
+pub mod c18;
+pub mod c19;
 pub mod common;
 
 pub fn run(prop: &str, tier: Tier, seed: u64) -> i32 {
@@ -33,8 +36,11 @@ pub fn run(prop: &str, tier: Tier, seed: u64) -> i32 {
         "C11" => c11::run(tier, seed),
         "C13" => c13::run(tier, seed),
         "C14" => c14::run(tier, seed),
+        "C15" => c15::run(tier, seed),
         "C16" => c16::run(tier, seed),
         "C17" => c17::run(tier, seed),
+        "C18" => c18::run(tier, seed),
+        "C19" => c19::run(tier, seed),
         _ => {
             eprintln!("unknown property {prop}");
             2
